@@ -427,6 +427,10 @@ func PublishContext[T any](bus *EventBus, ctx context.Context, event T) {
 				if !filterFunc(event) {
 					continue // Skip this handler as event doesn't match filter
 				}
+			} else if !callFilterReflect(h.filter, event) {
+				// The event was published through an interface-typed T (e.g. any):
+				// the predicate is typed by the event's concrete type
+				continue
 			}
 		}
 
@@ -654,6 +658,19 @@ func Sequential() SubscribeOption {
 	return func(h *internalHandler) {
 		h.sequential = true
 	}
+}
+
+// callFilterReflect evaluates a filter predicate whose parameter type is the
+// event's dynamic type. A predicate that cannot be applied accepts the event.
+func callFilterReflect(filter any, event any) bool {
+	fv := reflect.ValueOf(filter)
+	ev := reflect.ValueOf(event)
+	ft := fv.Type()
+	if ft.Kind() != reflect.Func || ft.NumIn() != 1 || ft.NumOut() != 1 || ft.Out(0).Kind() != reflect.Bool ||
+		!ev.IsValid() || !ev.Type().AssignableTo(ft.In(0)) {
+		return true
+	}
+	return fv.Call([]reflect.Value{ev})[0].Bool()
 }
 
 // WithFilter configures the handler to only receive events that match the predicate
